@@ -83,7 +83,7 @@ def _check(ctx: Ctx) -> None:
         atoms = set(dur.atoms())
         inst = f"{FN}: new duration = `{short(ast.parse('x').body[0], 1) and dur.canon()[:90]}`"
         good = dur.is_monomial() and len(atoms) == 1 and list(dur.terms.values()) == [1] and \
-            list(dur.terms.keys())[0] == ((next(iter(atoms)), 1),) and bool(_re.match(r"^\w+\[", next(iter(atoms))))
+            list(dur.terms.keys())[0] == ((next(iter(atoms)), 1),) and bool(_re.match(r"^(\w+\[|min\(\w+[;,] ?key=)", next(iter(atoms))))
         ctx.check(good, "DUR", inst + " is the chosen allowed value", function=FN,
                   construct="new end minus onset is not the chosen duration",
                   message=f"end' - start normalises to `{dur.canon()}`; it must reduce to the selected element of the allowed list",
@@ -92,7 +92,7 @@ def _check(ctx: Ctx) -> None:
             chosen = next(iter(atoms))
             # chosen = valid[<index expr>] with valid a local list
             import re
-            mm = re.match(r"^(\w+)\[", chosen)
+            mm = re.match(r"^(\w+)\[", chosen) or re.match(r"^min\((\w+)[;,] ?key=", chosen)      # an element picked by index, or by min(list, key=...)
             lst = mm.group(1) if mm else None
             if lst:
                 chosen_lists.add(lst)
